@@ -177,6 +177,7 @@ func init() {
 		"(net/netip.Addr).String":   extAddrString,
 
 
+		"github.com/miekg/dns.id": func(fr *frame, a []value) value { return fr.i.newNondet(types.Uint16, "dns.Id") },
 		// ---- os / misc
 		"os.Getenv":    func(fr *frame, a []value) value { return "" },
 		"os.LookupEnv": func(fr *frame, a []value) value { return tuple{"", false} },
